@@ -33,13 +33,15 @@ pub struct Report {
     pub nontrivial: HashSet<String>,
     pub nontrivial_count: u64,
     pub failures: Vec<Value>,
+    pub fail_keys: std::collections::HashMap<String, usize>,
+    pub n_failures: u64,
     pub samples: Vec<Value>,
     pub stop: bool,
 }
 
 impl Report {
     pub fn new(name: &str) -> Report {
-        Report { name: name.to_string(), bound: String::new(), evaluations: 0, nontrivial: HashSet::new(), nontrivial_count: 0, failures: vec![], samples: vec![], stop: false }
+        Report { name: name.to_string(), bound: String::new(), evaluations: 0, nontrivial: HashSet::new(), nontrivial_count: 0, failures: vec![], fail_keys: std::collections::HashMap::new(), n_failures: 0, samples: vec![], stop: false }
     }
     /// should this case run at all (--only filter / early stop)?
     pub fn want(&self, cfg: &Cfg, case: &str) -> bool {
@@ -63,15 +65,25 @@ impl Report {
         }
     }
     pub fn fail(&mut self, cfg: &Cfg, case: &str, what: &str, detail: Value) {
-        if self.failures.len() < 20 {
-            self.failures.push(json!({"case": case, "what": what, "detail": detail}));
+        self.fail_p(cfg, case, "", what, detail)
+    }
+    /// `props`: comma-separated property ids this failure is relevant to ("" = every property using the enumeration)
+    pub fn fail_p(&mut self, cfg: &Cfg, case: &str, props: &str, what: &str, detail: Value) {
+        self.n_failures += 1;
+        // keep at most 3 failures per (kind, class) so that a frequent known class cannot hide another kind
+        let class = case.split(';').find(|p| p.starts_with("class=")).unwrap_or("");
+        let key = format!("{}|{}|{}", what, class, props);
+        let k = self.fail_keys.entry(key).or_insert(0);
+        *k += 1;
+        if *k <= 3 && self.failures.len() < 60 {
+            self.failures.push(json!({"case": case, "what": what, "props": props, "detail": detail}));
         }
         if cfg.first_failure { self.stop = true; }
     }
     pub fn print(&self) {
         let v = json!({
             "name": self.name, "bound": self.bound, "evaluations": self.evaluations,
-            "distinct_nontrivial": self.nontrivial_count, "failures": self.failures, "samples": self.samples,
+            "distinct_nontrivial": self.nontrivial_count, "failures": self.failures, "n_failures": self.n_failures, "samples": self.samples,
         });
         println!("{}", v);
     }
